@@ -19,6 +19,12 @@
    sparse_sum then compacts the caller's index array in place when data2 holds stored zeros; the returned value is
    the same.
 
+   sparse_cosine / sparse_correlation call umap.utils.norm, which sparse.py imports: [src_norm] is translated into this
+   module from the CURRENT umap/utils.py (MODULES["sparse"]["imports"]; the translator checks the `from umap.utils import
+   norm` line) and linked to the model's [norm2].  sparse_correlation is the current text (after the two repairs) = the
+   model's [sparse_correlation] (not [_orig]); besides the buffer-length hypothesis it reads arr_intersect's result through
+   `set(..)` / `not in` ([zmem], PyPrim.v): hypothesis "k is in the returned array iff k is in the model's merge".
+
    Generic over [Num] (the source and the model perform the same operations in the same order), except the four
    binary metrics that compare an int with a float literal (Section Reals). *)
 From Coq Require Import List ZArith Bool Arith Lia Reals Lra.
@@ -476,6 +482,129 @@ Proof.
   unfold ngt, vsum_py, accum, idf.
   repeat match goal with |- (if ?c then _ else _) = (if ?c' then _ else _, true) => change c' with c; destruct c; [reflexivity|] end.
   reflexivity.
+Qed.
+
+(* umap.utils.norm (imported by sparse.py; translated into this module from the current umap/utils.py) *)
+Theorem src_norm_eq (v : list N) : src_norm N v = norm2 N v.
+Proof. unfold src_norm, norm2, accum, sq. cbv zeta. loop1. reflexivity. Qed.
+
+Theorem src_sparse_cosine_eq (I : list Z -> list Z -> list Z) (a b : svec) :
+  length (arr_intersect (inds N a) (inds N b)) <= length (I (zi a) (zi b)) ->
+  src_sparse_cosine N I (zi a) (vals N a) (zi b) (vals N b) = (sparse_cosine N a b, true).
+Proof.
+  intros HI. unfold src_sparse_cosine, sparse_cosine.
+  rewrite src_sparse_mul_eq by (pose proof (sparse_mul_room a b); lia). cbv beta iota zeta. loop1.
+  rewrite !src_norm_eq. unfold accum, idf.
+  repeat match goal with |- (if ?c then _ else _) = (if ?c' then _ else _, true) => change c' with c; destruct c; [reflexivity|] end.
+  reflexivity.
+Qed.
+
+(* ---- sparse_correlation (440-497, the text after the two repairs) ----------------------------------------------
+   arr_intersect is used twice: as the buffer sparse_mul writes into (length hypothesis, as above) and, through
+   `set(arr_intersect(ind1, ind2))`, as the set of common indices: its CONTENT matters only through the membership test
+   (hypothesis HC: k is in the returned array iff k is in the model's merge of the two index arrays).  arr_union: only the
+   length of its result is read.  Same operations in the same order: every [Num]. *)
+Definition corr_body (a b : svec) (n : nat) : N :=
+  let mu_x := div N (accum N (idf N) (vals N a)) (ofn N n) in
+  let mu_y := div N (accum N (idf N) (vals N b)) (ofn N n) in
+  let sh1 := map_vals N (fun v => sub N v mu_x) a in
+  let sh2 := map_vals N (fun v => sub N v mu_y) b in
+  let nr1 := norm2 N (vals N sh1) in
+  let nr2 := norm2 N (vals N sh2) in
+  let norm1 := nsqrt N (add N (mul N nr1 nr1) (mul N (of_Z N (Z.of_nat n - Z.of_nat (length a))) (mul N mu_x mu_x))) in
+  let norm2' := nsqrt N (add N (mul N nr2 nr2) (mul N (of_Z N (Z.of_nat n - Z.of_nat (length b))) (mul N mu_y mu_y))) in
+  let prod := sparse_mul N sh1 sh2 in
+  let common := arr_intersect (inds N a) (inds N b) in
+  let d1 := accum N (idf N) (vals N prod) in
+  let d2 := sub_uncommon N common mu_y sh1 d1 in
+  let d3 := sub_uncommon N common mu_x sh2 d2 in
+  let dot := add N d3 (mul N (mul N mu_x mu_y) (of_Z N (Z.of_nat n - n_union N a b))) in
+  if andb (eqb N norm1 (zero N)) (eqb N norm2' (zero N)) then zero N
+  else if eqb N dot (zero N) then one N
+  else sub N (one N) (div N dot (mul N norm1 norm2')).
+
+Lemma sparse_correlation_unfold_N (a b : svec) (n : nat) :
+  sparse_correlation N a b n = match a, b with [], [] => zero N | _, _ => corr_body a b n end.
+Proof. destruct a as [|e a]; destruct b as [|e' b]; reflexivity. Qed.
+
+Lemma combine_zi_vals (c : svec) : combine (zi c) (vals N c) = map (fun e => (Z.of_nat (fst e), snd e)) c.
+Proof. unfold zi, inds, vals. induction c as [|e c IH]; [reflexivity|]. cbn [map combine]. rewrite IH. reflexivity. Qed.
+
+(* the loops 481-487: `for i in range(ind.shape[0]): if ind[i] not in common_indices: dot_product -= shifted[i] * m` *)
+Lemma sub_uncommon_loop (CI : list Z) (common : list nat) (m : N) (sh : svec) (ia : list Z) (f : Z -> N -> N) (r0 : N) :
+  ia = zi sh ->
+  (forall k : nat, zmem (Z.of_nat k) CI = memb k common) ->
+  (forall k r, f (Z.of_nat k) r =
+               if negb (zmem (inth ia (Z.of_nat k)) CI) then sub N r (mul N (vnth N (vals N sh) (Z.of_nat k)) m) else r) ->
+  for_range 0 (zlen ia) f r0 = sub_uncommon N common m sh r0.
+Proof.
+  intros -> HC Hf.
+  rewrite (for_range_glist2 0%Z (zero N) (fun r j v => if negb (zmem j CI) then sub N r (mul N v m) else r) (zi sh) (vals N sh) f).
+  - rewrite combine_zi_vals, fold_left_map. unfold sub_uncommon. apply fold_left_ext. intros r e. cbn [fst snd].
+    rewrite HC. destruct (memb (fst e) common); reflexivity.
+  - rewrite zi_length, vals_length. reflexivity.
+  - intros k r. rewrite Hf. reflexivity.
+Qed.
+
+Lemma src_sparse_mul_eq' (I : list Z -> list Z -> list Z) (a b : svec) (ia ib : list Z) :
+  ia = zi a -> ib = zi b -> length (sparse_mul N a b) <= length (I ia ib) ->
+  src_sparse_mul N I ia (vals N a) ib (vals N b) = ((zi (sparse_mul N a b), vals N (sparse_mul N a b)), true).
+Proof. intros -> ->. apply src_sparse_mul_eq. Qed.
+
+Ltac let1 y := lazymatch goal with |- (let x := ?v in @?B x) = ?r => pose (y := v); change (B y = r); cbv beta end.
+Ltac is_model y H := clearbody y; rewrite H in *; clear y H.
+
+Theorem src_sparse_correlation_eq (U I : list Z -> list Z -> list Z) (a b : svec) (n : nat) :
+  zlen (U (zi a) (zi b)) = n_union N a b ->
+  length (arr_intersect (inds N a) (inds N b)) <= length (I (zi a) (zi b)) ->
+  (forall k : nat, zmem (Z.of_nat k) (I (zi a) (zi b)) = memb k (arr_intersect (inds N a) (inds N b))) ->
+  src_sparse_correlation N U I (zi a) (vals N a) (zi b) (vals N b) (Z.of_nat n) = (sparse_correlation N a b n, true).
+Proof.
+  intros HU HI HC. rewrite sparse_correlation_unfold_N. cbv beta delta [src_sparse_correlation].
+  let1 mu0. let1 mu0'. let1 dp0.
+  match goal with |- (if _ then _ else ?X) = _ => assert (E : X = (corr_body a b n, true)) end.
+  { let1 sx. assert (Hsx : sx = accum N (idf N) (vals N a)) by (subst sx mu0; unfold accum, idf; loop1; reflexivity).
+    is_model sx Hsx.
+    let1 sy. assert (Hsy : sy = accum N (idf N) (vals N b)) by (subst sy mu0'; unfold accum, idf; loop1; reflexivity).
+    is_model sy Hsy.
+    let1 mu_x. let1 mu_y. let1 z1. let1 z2.
+    let1 s1. assert (Hs1 : s1 = vals N (map_vals N (fun v => sub N v mu_x) a)).
+    { subst s1 z1. rewrite vals_map_vals. apply for_range_fill1. intros k d. reflexivity. }
+    is_model s1 Hs1.
+    let1 s2. assert (Hs2 : s2 = vals N (map_vals N (fun v => sub N v mu_y) b)).
+    { subst s2 z2. rewrite vals_map_vals. apply for_range_fill1. intros k d. reflexivity. }
+    is_model s2 Hs2.
+    set (sh1 := map_vals N (fun v => sub N v mu_x) a). set (sh2 := map_vals N (fun v => sub N v mu_y) b).
+    let1 norm1. let1 norm2'.
+    rewrite (src_sparse_mul_eq' I sh1 sh2 (zi a) (zi b)); try (symmetry; apply zi_map_vals).
+    2:{ pose proof (sparse_mul_room sh1 sh2) as R. unfold sh1, sh2 in R. rewrite !inds_map_vals in R. fold sh1 sh2 in R. lia. }
+    cbv beta iota.
+    let1 CI.
+    let1 dd1. assert (Hdd1 : dd1 = accum N (idf N) (vals N (sparse_mul N sh1 sh2))) by (subst dd1 dp0; unfold accum, idf; loop1; reflexivity).
+    is_model dd1 Hdd1.
+    let1 dd2. assert (Hdd2 : dd2 = sub_uncommon N (arr_intersect (inds N a) (inds N b)) mu_y sh1 (accum N (idf N) (vals N (sparse_mul N sh1 sh2)))).
+    { subst dd2. apply (sub_uncommon_loop CI); [symmetry; apply zi_map_vals | exact HC | intros k r; reflexivity]. }
+    is_model dd2 Hdd2.
+    let1 dd3. assert (Hdd3 : dd3 = sub_uncommon N (arr_intersect (inds N a) (inds N b)) mu_x sh2
+                                  (sub_uncommon N (arr_intersect (inds N a) (inds N b)) mu_y sh1 (accum N (idf N) (vals N (sparse_mul N sh1 sh2))))).
+    { subst dd3. apply (sub_uncommon_loop CI); [symmetry; apply zi_map_vals | exact HC | intros k r; reflexivity]. }
+    is_model dd3 Hdd3.
+    let1 all_indices. let1 dot.
+    assert (Hn1 : norm1 = nsqrt N (add N (mul N (norm2 N (vals N sh1)) (norm2 N (vals N sh1)))
+                                         (mul N (of_Z N (Z.of_nat n - Z.of_nat (length a))) (mul N mu_x mu_x))))
+      by (subst norm1; rewrite src_norm_eq, zlen_zi; reflexivity).
+    assert (Hn2 : norm2' = nsqrt N (add N (mul N (norm2 N (vals N sh2)) (norm2 N (vals N sh2)))
+                                          (mul N (of_Z N (Z.of_nat n - Z.of_nat (length b))) (mul N mu_y mu_y))))
+      by (subst norm2'; rewrite src_norm_eq, zlen_zi; reflexivity).
+    assert (Hdot : dot = add N (sub_uncommon N (arr_intersect (inds N a) (inds N b)) mu_x sh2
+                                  (sub_uncommon N (arr_intersect (inds N a) (inds N b)) mu_y sh1 (accum N (idf N) (vals N (sparse_mul N sh1 sh2)))))
+                               (mul N (mul N mu_x mu_y) (of_Z N (Z.of_nat n - n_union N a b))))
+      by (subst dot all_indices; rewrite HU; reflexivity).
+    clearbody norm1 norm2' dot. subst norm1 norm2' dot.
+    unfold corr_body. cbv zeta. fold mu_x mu_y. fold sh1 sh2.
+    repeat match goal with |- (if ?c then _ else _) = (if ?c' then _ else _, true) => change c' with c; destruct c; [reflexivity|] end.
+    reflexivity. }
+  rewrite E. destruct a as [|e a]; destruct b as [|e' b]; reflexivity.
 Qed.
 
 (* ---- binary metrics (312-397): only the LENGTHS of arr_union / arr_intersect are used ------------------------ *)
